@@ -520,7 +520,7 @@ theorem unmarshal_marshal_ptrmsg_partial (fs : Fields) (v : Val)
 example : unmarshalU (.struct exFields) (marshal (.struct exFields) (.struct exVals)) = .ok (.struct exVals) := by
   have hm : (lookupProtobuf "").bind parseStructTag = none := modelTag_empty
   have hc : fieldsOf 1 exFields = exCodec := by
-    simp [exFields, exInner, exCodec, fieldsOf, hm, fieldCodecOf, codecOf, isStructBase, baseTy]
+    simp [exFields, exInner, exCodec, fieldsOf, hm, fieldCodecOf, codecOf, isStructBase, embBase, baseTy]
   apply unmarshal_marshal_scalar
   · simp [tyOK, fieldsOK, exFields, exInner, tagAgree_empty, fieldNums, fieldOpt_empty, supportedKind]
   · decide
@@ -533,7 +533,7 @@ example : marshal (.struct exFields) (zeroOf (.struct exFields)) = []
         = .ok (zeroOf (.struct exFields)) := by
   have hm : (lookupProtobuf "").bind parseStructTag = none := modelTag_empty
   have hc : fieldsOf 1 exFields = exCodec := by
-    simp [exFields, exInner, exCodec, fieldsOf, hm, fieldCodecOf, codecOf, isStructBase, baseTy]
+    simp [exFields, exInner, exCodec, fieldsOf, hm, fieldCodecOf, codecOf, isStructBase, embBase, baseTy]
   have hz : zeroOf (.struct exFields) = .struct (.cons (.bool false) (.cons (.int 0) (.cons (.struct (.cons (.int 0)
       (.cons (.str []) .nil))) (.cons (.float 0) (.cons .nil (.cons (.int 0) .nil)))))) := by
     simp [zeroOf, zeroFields, exFields, exInner]
@@ -549,7 +549,7 @@ example : ∃ v', unmarshalU (.struct exPFields) (marshal (.struct exPFields) (.
     ∧ canonical (.struct exPFields) v' = canonical (.struct exPFields) (.struct exPVals) := by
   have hm : (lookupProtobuf "").bind parseStructTag = none := modelTag_empty
   have hc : fieldsOf 1 exPFields = exPCodec := by
-    simp [exPFields, exInner, exPCodec, fieldsOf, hm, fieldCodecOf, codecOf, isStructBase, baseTy, Codec.wire]
+    simp [exPFields, exInner, exPCodec, fieldsOf, hm, fieldCodecOf, codecOf, isStructBase, embBase, baseTy, Codec.wire]
   apply unmarshal_marshal_partial
   · simp [tyOK, fieldsOK, exPFields, exInner, tagAgree_empty, fieldNums, fieldOpt_empty, supportedKind, ptrTarget,
       elemTy, isPtr, isSlice]
